@@ -55,6 +55,36 @@ def _mkstemp_unpack(defs, name):
     return None
 
 
+def _operation_views(ctx, fn, depth=2):
+    """Helper-transparent views of everything that runs as part of operation ``fn``.
+
+    ``flat`` expands a helper call that is the whole value of a statement.  A helper whose result is only an *operand*
+    (``return n + self._rewrite(p)``, ``n += a(p) + b(p)``, ``if a(p) and b(p):``) stays a call in that view, yet its body
+    runs as part of the operation all the same.  So the calls of the source form are resolved with the flattener's own
+    resolver (same-module function, method of the same class or a base class, private import from the repository; same
+    eligibility: no generators, no decorated functions, no recursion) wherever they stand in an expression, to ``depth``
+    calls, and the view of each helper found is added.  Nothing is recognised by name; what is not resolvable is not followed.
+    """
+    from ..engine import inline
+
+    fl = inline.Flattener(ctx.repo, depth=0)
+    found, layer = [fn], [fn]
+    for _ in range(depth):
+        nxt = []
+        for f in layer:
+            m, cls, local_names = f._xv_mod, fl._class_of(f), inline._local_names(f)
+            for c in calls_in(f):
+                res = fl.resolve(m, cls, c, local_names)
+                if res is None or any(res[1] is g for g in found + nxt) or not fl._eligible(res[1], found):
+                    continue
+                if fl._bind(res[1], c, res[2], res[3]) is None:
+                    continue  # arguments do not fit the signature: not a call the flattener would follow either
+                nxt.append(res[1])
+        found += nxt
+        layer = nxt
+    return [flat(ctx, f, depth) for f in found]
+
+
 def check(ctx):
     ctx.not_decided += [
         "partial-write lengths and fsync/durability of the temp file",
@@ -271,8 +301,8 @@ def check(ctx):
                         where=loc(c),
                     )
     for q in ("JsonHistoryFlusher.dump", "JsonHistory.delete", "JsonHistory.erasedups"):
-        fn = flat(ctx, mod.func(q), depth=2)  # helper-transparent: an extracted atomic-write helper counts
-        has = any(call_name(c) == "os.replace" for c in calls_in(fn))
+        # helper-transparent: an extracted atomic-write helper counts, wherever in a statement its call stands
+        has = any(call_name(c) == "os.replace" for view in _operation_views(ctx, mod.func(q), depth=2) for c in calls_in(view))
         ctx.ob("R2", f"{JSON}:{q}", "the operation publishes its result with os.replace", has, key=f"{q}|no-replace")
     # R3 floor helper: GC's deliberate removal is outside LISTED functions (JsonHistoryGC.run)
     ctx.extra["publish_sequences"] = publish_sequences
